@@ -47,6 +47,7 @@ func asmContracts(arch string) map[string]*xContract {
 			pre:        tagSizePre(),
 			consumeSet: map[string][]*Lin{"nonce": {nl}, "plaintext": {pl}, "additionalData": {al}, "dst": {pl, pl.Add(L("tagSize"))}},
 			overlap:    map[string][]string{"plaintext": {"dst"}},
+			scratch:    map[string]int{"temp": 32},
 		}
 		c["openAsm"] = &xContract{
 			size:       map[string]*Lin{"roundKeys": linConst(128), "dst": cl.Sub(L("tagSize")), "nonce": nl, "ciphertext": cl, "additionalData": al, "temp": linConst(32)},
@@ -54,6 +55,7 @@ func asmContracts(arch string) map[string]*xContract {
 			consumeSet: map[string][]*Lin{"nonce": {nl}, "ciphertext": {cl.Sub(L("tagSize")), cl}, "additionalData": {al}, "dst": {cl.Sub(L("tagSize"))}},
 			mayBeNil:   map[string]bool{"dst": true},
 			overlap:    map[string][]string{"ciphertext": {"dst"}},
+			scratch:    map[string]int{"temp": 32},
 		}
 	} else {
 		c["cryptoBlockAsmX16Internal"] = &xContract{size: map[string]*Lin{"rk": linConst(128), "dst": linConst(256), "src": linConst(256), "tmp": linConst(256)}, overlap: map[string][]string{"src": {"dst", "tmp"}}}
